@@ -382,15 +382,15 @@ func C20(p *ir.Program, r *report.R) {
 		r.Extra["evm_nondeterminism_sites"] = nondet
 		// reviewed tables (site = function)
 		reviewedPanic := map[string]string{
-			"vm/evm.(*Memory).Set":         "guarded: the interpreter resizes memory to memorySize before execute (registry rule above); size mismatch is an interpreter bug, not program-controlled",
-			"vm/evm.(*Memory).Set32":       "as Memory.Set",
-			"vm/evm.(*intPool).put":        "only under the verifyPool build flag",
-			"vm/evm.verifyIntegerPool":     "only under the verifyPool build flag",
-			"vm/evm.opSuicide":             "",
-			"vm/evm.(*Interpreter).Run":    "",
-			"vm/evm.(*EVM).create":         "",
-			"vm/evm.makeDupStackFunc":      "",
-			"vm/evm.makeSwapStackFunc":     "",
+			"vm/evm.(*Memory).Set":      "guarded: the interpreter resizes memory to memorySize before execute (registry rule above); size mismatch is an interpreter bug, not program-controlled",
+			"vm/evm.(*Memory).Set32":    "as Memory.Set",
+			"vm/evm.(*intPool).put":     "only under the verifyPool build flag",
+			"vm/evm.verifyIntegerPool":  "only under the verifyPool build flag",
+			"vm/evm.opSuicide":          "",
+			"vm/evm.(*Interpreter).Run": "",
+			"vm/evm.(*EVM).create":      "",
+			"vm/evm.makeDupStackFunc":   "",
+			"vm/evm.makeSwapStackFunc":  "",
 		}
 		_ = allowedPanic
 		for _, s := range panics {
